@@ -205,8 +205,16 @@ def cli_loop(rec, rnd, tmp, k):
     descs += ['%s #%d %s WA' % (w1, rnd.randint(100, 999), w2), '%s #%d %s WA' % (w1, rnd.randint(1000, 9999), w2)]
     reader = 'amex' if rnd.random() < .25 and all(d == d.strip() and d for d in descs) else 'format'
     rec.count('cli_loops_reader:' + reader)
-    b = make_budget(tmp, k, descs, reader=reader)
-    case = {'kind': 'cli', 'descs': descs, 'reader': reader}
+    # what the user's rules file already holds when the suggestions are appended to it: a description transform (that changes none of these rows),
+    # a rule that cannot be evaluated for these rows (it reads a column only another statement has)
+    pre = ''
+    if rnd.random() < .4:
+        pre += 'field.description = regex_replace(field.description, "^ZZ-NEVER-THERE ", "")\n\n'
+    if rnd.random() < .4:
+        pre += '[Needs A Column]\nmatch: field.type == "DEP" and amount > 0\ncategory: Deposits\n\n'
+    rec.count('cli_loops_with_existing_rules', 1 if pre else 0)
+    b = make_budget(tmp, k, descs, with_rules=pre, reader=reader)
+    case = {'kind': 'cli', 'descs': descs, 'reader': reader, 'existing_rules': pre}
     rec.case()
     rec.count('cli_loops')
     p = tally(b, 'discover', os.path.join(b, 'config'), '--format', 'json', '-n', '0')
